@@ -1193,3 +1193,182 @@ pub fn replay_session(w: &Value) -> Result<(bool, String), String> {
     }
     Ok((!p1.is_empty(), d))
 }
+
+// ------------------------------------------------------------------ conformance on the real kernel
+
+/// Run a session with NO environment installed: the real kernel answers, a harness thread plays
+/// the peer (drains the master side at the given pace and answers the DA1 query). Samples the
+/// real kernel's schedules; decides nothing about the properties' quantifiers, but shows that the
+/// H2 seam is inert when unused and that the kernel model's oracle also holds on a real pty.
+pub fn conformance_run(session: &Session, pace_us: u64) -> Result<Outcome, String> {
+    use std::sync::atomic::{AtomicBool, Ordering};
+    use std::sync::{Arc, Mutex};
+    let (master, slave) = open_pty()?;
+    let slave_dup = unsafe { libc::dup(slave.as_raw_fd()) };
+    let saved = termios_of(slave_dup).ok_or("tcgetattr on the pty failed")?;
+    let stop = Arc::new(AtomicBool::new(false));
+    let received: Arc<Mutex<Vec<u8>>> = Arc::new(Mutex::new(vec![]));
+    let mfd = master.as_raw_fd();
+    let peer = {
+        let stop = stop.clone();
+        let received = received.clone();
+        std::thread::spawn(move || {
+            let mut scanned = 0usize;
+            let mut buf = vec![0u8; 65536];
+            loop {
+                let mut p = libc::pollfd { fd: mfd, events: libc::POLLIN, revents: 0 };
+                let r = unsafe { libc::poll(&mut p, 1, 20) };
+                if r > 0 && (p.revents & libc::POLLIN) != 0 {
+                    let n = unsafe { libc::read(mfd, buf.as_mut_ptr() as *mut libc::c_void, if pace_us > 0 { 512 } else { buf.len() }) };
+                    if n > 0 {
+                        let mut g = received.lock().unwrap();
+                        g.extend_from_slice(&buf[..n as usize]);
+                        while scanned + 3 <= g.len() {
+                            if &g[scanned..scanned + 3] == b"\x1b[c" {
+                                let reply = b"\x1b[?62;c";
+                                unsafe { libc::write(mfd, reply.as_ptr() as *const libc::c_void, reply.len()) };
+                                scanned += 3;
+                            } else {
+                                scanned += 1;
+                            }
+                        }
+                        drop(g);
+                        if pace_us > 0 {
+                            std::thread::sleep(Duration::from_micros(pace_us));
+                        }
+                        continue;
+                    }
+                }
+                if stop.load(Ordering::SeqCst) && r <= 0 {
+                    break;
+                }
+                if r > 0 && (p.revents & (libc::POLLHUP | libc::POLLERR)) != 0 && (p.revents & libc::POLLIN) == 0 {
+                    if stop.load(Ordering::SeqCst) {
+                        break;
+                    }
+                    std::thread::sleep(Duration::from_millis(1));
+                }
+            }
+        })
+    };
+    let mut outcome = Outcome {
+        out: vec![],
+        app_chunks: vec![],
+        events: vec![],
+        injected: vec![],
+        termios_restored: false,
+        deadlock: false,
+        horizon_hit: false,
+        hangup: false,
+        quit_seen: false,
+        log: vec![],
+        trace: vec![],
+        construct_error: None,
+        acts_done: 0,
+        epilogue_from: 0,
+        crashed: false,
+    };
+    let mut term = SystemTerminal::new_from_fd(slave).map_err(|e| format!("{e:?}"))?;
+    let mut expected = Expected::default();
+    let mut enc = TTYEncoder::new(TerminalCaps { depth: surf_n_term::encoder::ColorDepth::Gray, ..TerminalCaps::default() });
+    let mut counter = 0u32;
+    let mut polls = 0usize;
+    let master_write = |bytes: &[u8]| unsafe {
+        libc::write(mfd, bytes.as_ptr() as *const libc::c_void, bytes.len());
+    };
+    for act in &session.acts {
+        outcome.acts_done += 1;
+        match act {
+            Act::Write(n) => {
+                let b = payload(&mut counter, *n);
+                let _ = term.write_all(&b);
+                expected.append(&b);
+            }
+            Act::Exec(cmd) => {
+                let mut b = vec![];
+                let _ = enc.encode(&mut b, cmd.clone());
+                let _ = term.execute(cmd.clone());
+                expected.append(&b);
+            }
+            Act::Flush => {
+                let _ = term.flush();
+                expected.flush();
+            }
+            Act::Poll(t) => {
+                expected.flush();
+                let r = term.poll(t.map(Duration::from_millis));
+                outcome.events.push((polls, r.map_err(|e| format!("{e:?}"))));
+                polls += 1;
+            }
+            Act::FramesDrop => {
+                // give the peer a moment so that "what has been transmitted" is observable
+                std::thread::sleep(Duration::from_millis(5));
+                let out_now = received.lock().unwrap().clone();
+                // bytes may be in the pty buffer (transmitted, not yet read by the peer): a chunk
+                // the peer has not seen yet may already have started, so nothing may be inferred
+                // as droppable from the peer's view alone; mark only chunks after the kernel's
+                // view, which we cannot see: be conservative and allow any not-yet-seen chunk
+                expected.drop_frames(&out_now);
+                term.frames_drop();
+            }
+            Act::Arrive(Inject::Input(b)) | Act::Schedule(Inject::Input(b)) => master_write(b),
+            Act::Arrive(Inject::Wake) | Act::Schedule(Inject::Wake) => {
+                let _ = term.waker().wake();
+            }
+            Act::Arrive(_) | Act::Schedule(_) => {}
+        }
+    }
+    for _ in 0..200 {
+        expected.flush();
+        let r = term.poll(Some(Duration::from_millis(2)));
+        let none = matches!(r, Ok(None));
+        outcome.events.push((polls, r.map_err(|e| format!("{e:?}"))));
+        polls += 1;
+        if none && term.frames_pending() == 0 {
+            break;
+        }
+    }
+    std::thread::sleep(Duration::from_millis(3));
+    {
+        let out_now = received.lock().unwrap().clone();
+        expected.flush();
+        expected.drop_frames(&out_now);
+        outcome.epilogue_from = out_now.len();
+    }
+    drop(term);
+    std::thread::sleep(Duration::from_millis(3));
+    stop.store(true, Ordering::SeqCst);
+    let _ = peer.join();
+    outcome.termios_restored = termios_of(slave_dup).as_ref() == Some(&saved);
+    unsafe { libc::close(slave_dup) };
+    drop(master);
+    outcome.out = received.lock().unwrap().clone();
+    outcome.app_chunks = expected.chunks;
+    Ok(outcome)
+}
+
+/// all C16 sessions without frame drops x three drain paces
+pub fn conformance_pass() -> Result<(u64, Vec<(String, String)>), String> {
+    prepare_process();
+    let mut runs = 0u64;
+    let mut problems = vec![];
+    for s in sessions_c16() {
+        if s.acts.iter().any(|a| matches!(a, Act::FramesDrop)) {
+            continue; // what had started is not observable from outside the kernel
+        }
+        for pace in [0u64, 200, 2000] {
+            if pace == 2000 && s.acts.iter().any(|a| matches!(a, Act::Write(n) if *n > 10_000)) {
+                continue;
+            }
+            let o = conformance_run(&s, pace)?;
+            runs += 1;
+            for (k, what) in c16_problems(&o) {
+                problems.push((format!("conformance:{k}"), format!("real pty, session {}, peer pace {} us: {}", s.name, pace, what)));
+            }
+            if !o.termios_restored {
+                problems.push(("conformance:termios".into(), format!("real pty, session {}: termios not restored", s.name)));
+            }
+        }
+    }
+    Ok((runs, problems))
+}
